@@ -6,78 +6,8 @@ use vstd::prelude::*;
 verus! {
 global size_of usize == 8;
 
-pub mod io {
-    use vstd::prelude::*;
-    verus! {
-    pub struct Error;
-    pub type Result<T> = core::result::Result<T, Error>;
-    pub enum SeekFrom { Start(u64), End(i64), Current(i64) }
-    }
-}
-
-/// A seekable byte stream seen as (content, position).  For `seek_bufread::BufReader<File>` this is
-/// the assumed contract of the dependency (C03/C11 trusted base): reads deliver the file's bytes at
-/// the current position, seeks move the position and report it.
-pub trait Stream {
-    spec fn inv(&self) -> bool;
-    spec fn file(&self) -> Seq<u8>;
-    spec fn pos(&self) -> int;
-    proof fn lemma_stream_bounds(&self)
-        requires self.inv(),
-        ensures self.file().len() <= u64::MAX, 0 <= self.pos();
-}
-
-pub trait Read: Stream {
-    fn read(&mut self, buf: &mut [u8]) -> (r: io::Result<usize>)
-        requires old(self).inv(),
-        ensures
-            final(self).file() == old(self).file(),
-            final(buf)@.len() == old(buf)@.len(),
-            match r {
-                Ok(n) => final(self).inv() && n <= old(buf)@.len() && old(self).pos() + n <= old(self).file().len()
-                    && final(self).pos() == old(self).pos() + n
-                    //# C11:delivered_bytes_are_the_stream_bytes_at_pos
-                    && (forall|j: int| 0 <= j < n ==> final(buf)@[j] == old(self).file()[old(self).pos() + j])
-                    && (forall|j: int| n <= j < old(buf)@.len() ==> final(buf)@[j] == old(buf)@[j]),
-                Err(_) => true,
-            };
-}
-
-pub trait Seek: Stream {
-    fn seek(&mut self, pos: io::SeekFrom) -> (r: io::Result<u64>)
-        requires old(self).inv(),
-        ensures
-            final(self).file() == old(self).file(),
-            match r {
-                Ok(p) => final(self).inv() && final(self).pos() == p
-                    && (pos matches io::SeekFrom::Start(x) ==> p == x),
-                Err(_) => true,
-            };
-}
-
-//@extract type src/blockchain/parser/reader.rs :: struct XorReader
-//@end
-
-/// de-obfuscated byte i of an obfuscated file: key repeats from file offset 0
-pub open spec fn plain(file: Seq<u8>, key: Option<Vec<u8>>, i: int) -> u8 {
-    match key { Some(k) => file[i] ^ k@[i % (k@.len() as int)], None => file[i] }
-}
-
-impl<R: Stream> Stream for XorReader<R> {
-    /// representation invariant: tracked position == position of the wrapped reader; key non-empty
-    open spec fn inv(&self) -> bool {
-        &&& self.reader.inv()
-        &&& self.absolute_pos as int == self.reader.pos()
-        &&& (self.xor_key matches Some(k) ==> k@.len() > 0)
-    }
-    /// the stream an XorReader presents is the de-obfuscated file
-    open spec fn file(&self) -> Seq<u8> {
-        Seq::new(self.reader.file().len(), |i: int| plain(self.reader.file(), self.xor_key, i))
-    }
-    open spec fn pos(&self) -> int { self.absolute_pos as int }
-    proof fn lemma_stream_bounds(&self) { self.reader.lemma_stream_bounds(); }
-}
-
+//@include prelude/stream.inc
+//@include prelude/xor_spec.inc
 impl<R: Seek + Read> XorReader<R> {
 //@extract fn src/blockchain/parser/reader.rs :: impl<R: Seek + Read> XorReader<R> :: new
 //@spec
